@@ -175,6 +175,11 @@ Definition seg_chain (inf : infof) (h : hopf) : infof :=
 Definition in_alert (h : hopf) (inf : infof) : bool := if i_cons inf then h_ain h else h_aeg h.
 Definition eg_alert (h : hopf) (inf : infof) : bool := if i_cons inf then h_aeg h else h_ain h.
 
+Lemma hop_egress_chain h inf (a c : bool) h' :
+  hop_egress (if a then (if c then set_aeg h false else set_ain h false) else h)
+             (seg_chain inf h') = hop_egress h inf.
+Proof. unfold seg_chain, hop_egress. destruct a, c, (i_cons inf) eqn:E; cbn; rewrite ?E; reflexivity. Qed.
+
 (** what both routers agree a good step is (outside the peering findings) *)
 Inductive good_step (t : topology key) (ia : N) (K : key) (now i : N)
   : packet -> action -> packet -> Prop :=
@@ -313,11 +318,10 @@ Proof.
   destruct (sdk_validate_hop mac true false i now K h inf1) as [err|] eqn:Ev.
   { destruct (length (p_hops p) <=? p_ch p + 1)%nat; destruct en;
       try (intros H; inversion H; exact I).
-    - destruct (ia =? dst); intros H; inversion H; exact I.
+    - intros H; inversion H; subst; destruct err; exact I.
     - destruct (nth_error (p_hops p) (S (p_ch p))); [|intros H; inversion H; exact I].
       destruct (nth_error (p_infos p) (S (p_ci p))); [|intros H; inversion H; exact I].
       cbn [or_else]. intros H; inversion H; subst; destruct err; exact I.
-    - intros H; inversion H; subst; destruct err; exact I.
     - intros H; inversion H; subst; destruct err; exact I. }
   destruct (validate_ingress_none mac _ _ _ _ _ _ Ev) as (Ving & Vt & Vm).
   rewrite Tinf in Vt.
@@ -357,7 +361,7 @@ Proof.
     pose proof (Hal_of _ eq_refl Ea) as Hal.
     (* scope: came from a neighbour *)
     assert (Ef' : (length (p_hops p) <=? p_ch p + 1)%nat = false) by (apply Nat.leb_gt; lia).
-    rewrite Ef', Enh, Eni in Sx. apply andb_true_iff in Sx. destruct Sx as (E0 & Sx).
+    try rewrite Ef' in Sx. try rewrite Enh in Sx. try rewrite Eni in Sx. apply andb_true_iff in Sx. destruct Sx as (E0 & Sx).
     apply negb_true_iff in E0.
     rewrite E0 in Hal. cbn [negb andb] in Hal.
     assert (Eing : (hop_ingress h inf =? i) = true) by (rewrite <- Iinf; apply Ving; auto).
@@ -397,7 +401,7 @@ Proof.
     destruct (sdk_validate_hop mac false false (hop_egress nh ninf) now K nh ninf) as [err|] eqn:Ev3;
       [intros H; inversion H; subst; destruct err; exact I|].
     fold (eg_alert nh ninf). fold (seg_chain ninf nh).
-    rewrite hop_egress_inv.
+    rewrite hop_egress_chain.
     pose proof (iface_nonzero t ia _ _ W Hlo) as Enz.
     rewrite Enz, N.eqb_refl. cbn [negb]. rewrite andb_true_r.
     destruct (eg_alert nh ninf) eqn:Hea2; [intros H; inversion H; exact I|].
@@ -405,7 +409,7 @@ Proof.
     rewrite (upd_same _ _ _ Eh). rewrite (upd_same _ _ _ Enh).
     destruct (Sm0 eq_refl) as (Sn2 & _).
     eapply (GXover t ia K now i dst p h inf nh ninf lin upi lout); eauto.
-    rewrite Hal. reflexivity.
+    apply N.eqb_eq. exact Eing.
   - (* plain forward *)
     apply Nat.leb_gt in Ef.
     destruct (al && negb (i =? 0) && (hop_ingress h inf =? i)) eqn:Ea;
@@ -431,7 +435,7 @@ Proof.
     rewrite Cinf. fold (eg_alert h inf).
     replace (if i_cons inf then set_segid inf1 (beta_step (i_segid inf1) (h_mac h)) else inf1)
       with (seg_chain inf1 h) by (unfold seg_chain; rewrite Cinf; reflexivity).
-    rewrite hop_egress_inv. rewrite Heg.
+    rewrite hop_egress_chain. rewrite Heg.
     pose proof (iface_nonzero t ia _ _ W Hif) as Enz.
     rewrite Enz, N.eqb_refl. cbn [negb]. rewrite andb_true_r.
     destruct (eg_alert h inf) eqn:Hea; [intros H; inversion H; exact I|].
@@ -454,5 +458,148 @@ Proof.
     exact (good_to_ref _ _ _ _ _ _ _ _ G).
   - intros pk' H. pose proof (sdk_to_good _ _ _ _ _ _ _ _ W P S H) as G. cbn in G.
     exact (good_to_ref _ _ _ _ _ _ _ _ G).
+Qed.
+
+(** every forwarding decision rests on a hop field that is authentic for this AS over the
+    SegID carried at that moment, within its lifetime, and names the egress interface used;
+    the hop field the packet entered on was validated too (no error from the ingress half) *)
+Lemma sdk_fwd_authentic t ia K now i pk e pk' :
+  sdk_route mac t ia K now i pk = (AFwd e, pk') ->
+  exists p1 al ing act h inf,
+    sdk_advance_ingress mac t ia K now i (k_path pk) = Ok (p1, al, ing, act, None)
+    /\ nth_error (p_hops p1) (p_ch p1) = Some h /\ nth_error (p_infos p1) (p_ci p1) = Some inf
+    /\ hop_egress h inf = e /\ hop_mac_ok mac K h inf = true /\ ref_time_ok now h inf = true.
+Proof.
+  unfold sdk_route. destruct (sdk_handle mac t ia K now i (k_path pk)) as [p' r] eqn:E.
+  destruct r as [a| |]; try (intros H; inversion H; fail).
+  2:{ destruct e0; cbn; intros H; inversion H. }
+  destruct a; try (intros H; inversion H; fail).
+  2:{ destruct (ia =? k_dst pk); intros H; inversion H. }
+  intros H; inversion H; subst eg pk'; clear H.
+  unfold sdk_handle in E.
+  destruct (sdk_advance_ingress mac t ia K now i (k_path pk)) as [[[[[p1 al] ing] act] verr]| |] eqn:Ei;
+    [|inversion E|inversion E].
+  destruct verr; [inversion E|].
+  destruct (al && negb (i =? 0) && (ing =? i)); [inversion E|].
+  destruct act as [eg|]; [|inversion E].
+  destruct (nth_error (p_infos p1) (p_ci p1)) as [ci|] eqn:Eci; [|inversion E].
+  destruct (iface_state t ia eg) as [[ty up]|]; [|inversion E].
+  destruct up; cbn [negb] in E; [|inversion E].
+  destruct (sdk_advance_egress mac K now eg p1) as [[[[p2 al2] eg2] verr2]| |] eqn:Ee;
+    [|inversion E|inversion E].
+  destruct verr2; [inversion E|].
+  destruct (al2 && negb (eg2 =? 0) && (eg2 =? eg)); inversion E; subst; clear E.
+  unfold sdk_advance_egress in Ee.
+  destruct (seg_index (p_lens p1) (p_ch p1)) as [[[seg st] en]|]; [|discriminate].
+  destruct (negb (seg =? p_ci p1)%nat); [discriminate|].
+  destruct (nth_error (p_hops p1) (p_ch p1)) as [h|] eqn:Eh; [|discriminate].
+  rewrite Eci in Ee.
+  destruct (length (p_hops p1) <=? p_ch p1 + 1)%nat; [discriminate|].
+  destruct en; [discriminate|].
+  injection Ee as Hp Hal Heg Hv.
+  destruct (validate_egress_none mac _ _ _ _ _ _ Hv) as (A & B & C).
+  exists p1, al, ing, (Some eg), h, ci. repeat split; auto.
+  rewrite <- Heg. rewrite hop_egress_inv. reflexivity.
+Qed.
+
+(** * run level *)
+
+(** [step_scope] holds at every AS the SDK's run visits *)
+Fixpoint run_scope (fuel : nat) (t : topology key) (now ia i : N) (pk : packet) : bool :=
+  match fuel with
+  | O => true
+  | S f =>
+    step_scope t ia i (k_path pk) &&
+    match find_as t ia with
+    | None => true
+    | Some a =>
+      match sdk_route mac t ia (a_key a) now i pk with
+      | (AFwd eg, pk') =>
+        match scion_link t ia eg with
+        | Some l => match get_peer l ia with
+                    | Some (ia', if') => run_scope f t now ia' if' pk'
+                    | None => true
+                    end
+        | None => true
+        end
+      | _ => true
+      end
+    end
+  end.
+
+Definition fwd_of_steps (tr : list step) : list (N * N * N) :=
+  flat_map (fun s => match s_act s with AFwd e => [(s_ia s, s_if s, e)] | _ => [] end) tr.
+
+Lemma sdk_sim_sound fuel t now : wf_topo t = true ->
+  forall ia i pk tr e pk',
+  path_ok (k_path pk) -> run_scope fuel t now ia i pk = true ->
+  sdk_sim mac fuel t now ia i pk = (tr, e, pk') ->
+  forall rtr rend rpk, ref_sim mac fuel t now ia i pk = (rtr, rend, rpk) ->
+  (exists more, rtr = fwd_of_steps tr ++ more)
+  /\ (forall pre s, tr = pre ++ [s] -> s_act s = ALocal ->
+        rtr = fwd_of_steps tr /\ rend = RDelivered (s_ia s) /\ rpk = pk').
+Proof.
+  intros W. induction fuel as [|f IH]; intros ia i pk tr e pk' P Sc H rtr rend rpk R;
+    cbn [sdk_sim ref_sim run_scope] in *.
+  - inversion H; subst. inversion R; subst. split; [exists []; reflexivity|].
+    intros pre s Hp. destruct pre; discriminate.
+  - apply andb_true_iff in Sc. destruct Sc as (Sc1 & Sc2).
+    destruct (find_as t ia) as [a|] eqn:Ea.
+    2:{ inversion H; subst. inversion R; subst. split; [exists []; reflexivity|].
+        intros pre s Hp. destruct pre; discriminate. }
+    destruct (sdk_step_sound t ia (a_key a) now i pk W P Sc1) as (SF & SL).
+    destruct (sdk_route mac t ia (a_key a) now i pk) as [act pk1] eqn:Er.
+    assert (Hother : forall x, (forall eg, act <> AFwd eg) -> act <> ALocal ->
+              tr = [mkStep ia i act] -> x = fwd_of_steps tr ++ x
+              /\ (forall pre s, tr = pre ++ [s] -> s_act s = ALocal -> False)).
+    { intros x N1 N2 ->. split.
+      - unfold fwd_of_steps. cbn. destruct act; try reflexivity. exfalso; eapply N1; reflexivity.
+      - intros pre s Hp Hs. destruct pre as [|y pre]; cbn in Hp.
+        + inversion Hp; subst s. cbn in Hs. congruence.
+        + inversion Hp. destruct pre; discriminate. }
+    destruct act.
+    + (* forward *)
+      rewrite (SF _ _ eq_refl) in R.
+      pose proof (sdk_route_fwd _ _ _ _ _ _ _ _ _ Er) as (_ & (HL & HH & _) & _).
+      assert (P1 : path_ok (k_path pk1)).
+      { destruct P as (P1 & P2). split; [rewrite HL; exact P1|rewrite HL, HH; exact P2]. }
+      destruct (scion_link t ia eg) as [l|].
+      2:{ inversion H; subst. inversion R; subst. split; [exists []; reflexivity|].
+          intros pre s Hp. destruct pre; discriminate. }
+      destruct (get_peer l ia) as [[ia' if']|].
+      2:{ inversion H; subst. inversion R; subst. split; [exists []; reflexivity|].
+          intros pre s Hp. destruct pre; discriminate. }
+      destruct (ref_sim mac f t now ia' if' pk1) as [[rtr1 rend1] rpk1] eqn:R1.
+      inversion R; subst rtr rend rpk; clear R.
+      destruct (find_as t ia').
+      2:{ inversion H; subst. split; [exists ((ia, i, eg) :: rtr1); reflexivity|].
+          intros pre s Hp. destruct pre; discriminate. }
+      destruct (sdk_sim mac f t now ia' if' pk1) as [[tr1 e1] pk2] eqn:S1.
+      inversion H; subst tr e pk'; clear H.
+      destruct (IH _ _ _ _ _ _ P1 Sc2 S1 _ _ _ R1) as ((more & Hm) & Hd).
+      split.
+      * exists more. unfold fwd_of_steps in *.
+        cbn [flat_map s_act s_ia s_if app]. f_equal. exact Hm.
+      * intros pre s Hp Hs. destruct pre as [|y pre]; cbn in Hp.
+        -- inversion Hp; subst s. cbn in Hs. discriminate.
+        -- inversion Hp; subst y. destruct (Hd pre s H1 Hs) as (A & B & C).
+           split; [|split; assumption]. unfold fwd_of_steps in *.
+           cbn [flat_map s_act s_ia s_if app]. f_equal. rewrite H1 in A. exact A.
+    + (* deliver *)
+      rewrite (SL _ eq_refl) in R. inversion R; subst; clear R. inversion H; subst; clear H.
+      split; [exists []; reflexivity|].
+      intros pre s Hp Hs. destruct pre as [|y pre]; cbn in Hp.
+      * inversion Hp; subst s. cbn. auto.
+      * inversion Hp. destruct pre; discriminate.
+    + inversion H; subst. destruct (Hother rtr ltac:(congruence) ltac:(congruence) eq_refl) as (A & B).
+      split; [exists rtr; exact A|]. intros pre s Hp Hs. destruct (B pre s Hp Hs).
+    + inversion H; subst. destruct (Hother rtr ltac:(congruence) ltac:(congruence) eq_refl) as (A & B).
+      split; [exists rtr; exact A|]. intros pre s Hp Hs. destruct (B pre s Hp Hs).
+    + inversion H; subst. destruct (Hother rtr ltac:(congruence) ltac:(congruence) eq_refl) as (A & B).
+      split; [exists rtr; exact A|]. intros pre s Hp Hs. destruct (B pre s Hp Hs).
+    + inversion H; subst. destruct (Hother rtr ltac:(congruence) ltac:(congruence) eq_refl) as (A & B).
+      split; [exists rtr; exact A|]. intros pre s Hp Hs. destruct (B pre s Hp Hs).
+    + inversion H; subst. destruct (Hother rtr ltac:(congruence) ltac:(congruence) eq_refl) as (A & B).
+      split; [exists rtr; exact A|]. intros pre s Hp Hs. destruct (B pre s Hp Hs).
 Qed.
 End Sound.
